@@ -85,6 +85,7 @@ int main(int argc, char** argv) {
   tf.push_back(fam::make_LC(quick ? 2 : 3, !quick));
   tf.push_back(fam::make_LM(lmbase, lm_maxlen));
   tf.push_back(fam::make_LW());
+  tf.push_back(fam::make_LX(std::make_shared<std::vector<fam::BaseText>>(fam::base_valid(3, false, 1)), 3));
   // valid grammar texts (on-demand + serialisation agree)
   auto gram = std::make_shared<std::vector<std::string>>(
       fam::valid_texts_by_budget(quick ? 8 : 10, {"1", "-2.5e3", "\"a\"", "\"]\\\"{\"", "\"\\u00e9\\ud83d\\ude00\"", "null", "true"}, {"\"a\"", "\"b\"", "\"\\u0061\"", "\"\""}));
@@ -97,6 +98,26 @@ int main(int argc, char** argv) {
     g.meta.rule = "every valid text of bounded token count over leaves incl. escaped/unicode strings and keys a,b,escaped a,''";
     g.gen = [gram](uint64_t i, std::string& out) {
       out = (*gram)[i];
+      return true;
+    };
+    tf.push_back(g);
+  }
+  // long containers that the on-demand scanner must skip, with a special item at every offset
+  {
+    fam::TextFamily g;
+    g.meta.name = "OL_skip_long_container";
+    g.meta.count = 150ull * 6 * 2;
+    g.meta.group = "OL";
+    g.meta.chunk = 64;
+    g.meta.rule = "texts [C,7] and {\"a\":C,\"b\":7} where C is an array padded with n in 0..149 digits before one special item (escaped quote, brackets inside a string, nested empties, escaped backslash): digests include the on-demand lookups of the element/member after C";
+    g.gen = [](uint64_t idx, std::string& out) {
+      static const char* sp[6] = {"\"\\\"\"", "\"]}[{\"", "[]", "{}", "\"\\\\\"", "[[\"]\"],{\"k\":\"}\"}]"};
+      unsigned wrap = (unsigned)(idx % 2);
+      idx /= 2;
+      unsigned s = (unsigned)(idx % 6);
+      unsigned n = (unsigned)(idx / 6);
+      std::string C = "[" + (n ? std::string(n, '1') + "," : std::string()) + sp[s] + ",2]";
+      out = wrap == 0 ? "[" + C + ",7]" : "{\"a\":" + C + ",\"b\":7}";
       return true;
     };
     tf.push_back(g);
